@@ -154,6 +154,26 @@ Proof. revert x. induction L as [|c L IH]; intros [|y x] Hl; simpl in Hl; try di
   destruct y; cbn [Bool.eqb forallb]; rewrite <- IH; destruct (fal c w); cbn [negb andb Bool.eqb]; try reflexivity;
   rewrite ?andb_false_r; reflexivity. Qed.
 
+(* hard clauses after the loop `for i in part: f_cnf[i] if i in xi else nf_cnf[i]` *)
+Lemma hard_member S Ls wc w : (forall c, In c Ls -> In c D) ->
+  scnf_holds (w_hard (fold_left (fun hv k => fold_left (fun x c => w_append x c) (getd (if zmem k S then fd else nf) k) hv) (map kz Ls) wc)) w
+  = scnf_holds (w_hard wc) w && forallb (fun c => Bool.eqb (fal c w) (zmem (kz c) S)) Ls.
+Proof. revert wc. induction Ls as [|c Ls IH]; intros wc HL; simpl; [rewrite andb_true_r; reflexivity|].
+  rewrite IH by (intros c' Hc'; apply HL; right; exact Hc'). rewrite w_hard_append_fold, scnf_holds_app.
+  assert (Hc: In c D) by (apply HL; left; reflexivity).
+  destruct (zmem (kz c) S); [rewrite getd_fd_holds by exact Hc|rewrite getd_nf_holds by exact Hc];
+  rewrite andb_assoc; f_equal; f_equal; destruct (fal c w); reflexivity. Qed.
+Lemma member_pattern (g:cond -> bool) L x : NoDup (map kz L) -> length x = length L ->
+  forallb (fun c => Bool.eqb (g c) (zmem (kz c) (keys_of_bv (map kz L) x))) L = beq (map g L) x.
+Proof. intros Hn. revert x. induction L as [|c L IH]; intros [|y x] Hl; simpl in Hl; try discriminate; [reflexivity|].
+  injection Hl as Hl. simpl in Hn. inversion Hn as [|? ? Hni Hn']; subst. specialize (IH Hn' x Hl).
+  cbn [map keys_of_bv forallb beq].
+  assert (Hhead: zmem (kz c) (if y then kz c :: keys_of_bv (map kz L) x else keys_of_bv (map kz L) x) = y).
+  { destruct y; [unfold zmem; simpl; rewrite Z.eqb_refl; reflexivity|]. apply zmem_false. intros H. apply Hni. eapply kob_in; eauto. }
+  rewrite Hhead. f_equal. rewrite <- IH. apply forallb_ext_in. intros c' Hc'. f_equal.
+  destruct y; [|reflexivity]. unfold zmem. simpl.
+  destruct (kz c' =? kz c)%Z eqn:E; [|reflexivity]. apply Z.eqb_eq in E. exfalso. apply Hni. rewrite <- E. apply in_map. exact Hc'. Qed.
+
 (* ---- the recursion ---- *)
 Notation P := (acP Pc).
 Lemma Pc_length : length Pc = m.  Proof. unfold Pc. rewrite map_length, seq_length. reflexivity. Qed.
